@@ -1565,7 +1565,8 @@ def shallow_parse_input_query(query_text, input_iterator, tables_registry, query
     if UPDATE in rb_actions:
         update_expression = translate_update_expression(rb_actions[UPDATE]['text'], input_variables_map, string_literals)
         query_context.update_expressions = combine_string_literals(update_expression, string_literals)
-        query_context.writer.set_header(input_header)
+        # The writer gets a list of its own: `input_header` may be the caller's column names list and a writer is free to rewrite what it is given (the CSV writer does).
+        query_context.writer.set_header(None if input_header is None else list(input_header))
 
 
     if SELECT in rb_actions:
